@@ -68,11 +68,26 @@ def parseOutStr (o : ParseOut Float) : String :=
   let lbl := if o.events.isEmpty then "" else labelsStr o.labels
   s!"n={o.events.length} [{evs}] L={lbl} S={o.samples} TE={o.tagErrs} TR={o.tagsRecv} NE={o.errs.length}\terrs={countReasons o.errs}"
 
+/-- harness-side safety guard, mirrored here: a line with a sample-rate token `@r`, 0 < |r| < 1e-4, would ask
+    for more than 10^4 events per sample and is skipped by both sides (C02's unbounded-multiplicity finding
+    is replayed separately with a bounded rate) -/
+def hugeGuard (pf : Pf Float) (line : Bytes) : Bool :=
+  let pieces := (splitOn cPipe line).flatMap fun p => p :: splitOn cColon p
+  pieces.any fun p =>
+    match p with
+    | b :: rest =>
+      if b == cAt then
+        let (v, e) := pf rest
+        e != .syntax && v != 0.0 && v.abs < 1e-4
+      else false
+    | [] => false
+
 /-- `parse <flags> <hexline> [<hextok>=<bits>:<o|r>]*` -/
 def parseCmd : List String → String
   | fl :: line :: toks =>
     match parseFlags fl, decHex line, parseDict toks with
-    | some f, some l, some d => parseOutStr (lineToEvents f (dictPf d) (validUtf8 l) l)
+    | some f, some l, some d =>
+      if hugeGuard (dictPf d) l then "skip-huge" else parseOutStr (lineToEvents f (dictPf d) (validUtf8 l) l)
     | _, _, _ => "bad-op"
   | _ => "bad-op"
 
